@@ -73,6 +73,7 @@ type c02walk struct {
 	stores []*ssa.Store      // stores executed on the error path
 	calls  []*ssa.Call       // static calls of repository functions on the error path
 	seen   map[[2]*ssa.BasicBlock]bool
+	depth  int // nesting of predicate helpers being evaluated
 }
 
 func c02isExitCall(i ssa.Instruction) bool {
@@ -124,6 +125,9 @@ func (w *c02walk) evalCond(cond ssa.Value, env c02env) (canTrue, canFalse bool) 
 			}
 		}
 	}
+	if call, ok := cond.(*ssa.Call); ok && !known {
+		val, known = w.evalPredicate(call, env)
+	}
 	if !known {
 		return true, true
 	}
@@ -132,6 +136,68 @@ func (w *c02walk) evalCond(cond ssa.Value, env c02env) (canTrue, canFalse bool) 
 		val = !val
 	}
 	return val, !val
+}
+
+// evalPredicate: the condition is the verdict of a small repository predicate about values the walk knows something
+// about (`if warn(err) { continue }` with `func warn(err error) bool { if err == nil { return false }; log...; return
+// true }`): the predicate is walked with that knowledge about its parameters; when every return it can reach gives the
+// same constant, that is the verdict. A process exit inside the predicate counts as one of the error path.
+func (w *c02walk) evalPredicate(call *ssa.Call, env c02env) (val, known bool) {
+	sc := call.Call.StaticCallee()
+	if sc == nil || call.Call.IsInvoke() || w.depth >= 2 || !isRepoFn(sc) || sc.Signature.Results().Len() != 1 {
+		return false, false
+	}
+	sc = unwrap(sc)
+	if len(sc.Blocks) == 0 {
+		return false, false
+	}
+	K := newC02errK()
+	any := false
+	for k, a := range call.Call.Args {
+		if k >= len(sc.Params) {
+			break
+		}
+		a = env.resolve(a)
+		p := sc.Params[k]
+		if w.K.nonNil[a] {
+			K.nonNil[p], any = true, true
+		}
+		if w.K.isNil[a] || isNilConst(a) {
+			K.isNil[p], any = true, true
+		}
+		if b, ok := w.K.boolv[a]; ok {
+			K.boolv[p], any = b, true
+		}
+	}
+	if !any {
+		return false, false
+	}
+	sub := &c02walk{fn: sc, K: K, seen: map[[2]*ssa.BasicBlock]bool{}, depth: w.depth + 1}
+	sub.visit(sc.Blocks[0], 0, c02env{})
+	if len(sub.rets) == 0 {
+		return false, false
+	}
+	for n, r := range sub.rets {
+		if len(r.r.Results) != 1 {
+			return false, false
+		}
+		rv := r.env.resolve(r.r.Results[0])
+		b, ok := constBool(rv)
+		if !ok {
+			// `return err != nil`
+			canT, canF := sub.evalCond(rv, r.env)
+			if canT == canF {
+				return false, false
+			}
+			b = canT
+		}
+		if n > 0 && b != val {
+			return false, false
+		}
+		val = b
+	}
+	w.exits = append(w.exits, sub.exits...)
+	return val, true
 }
 
 func (w *c02walk) visit(b *ssa.BasicBlock, idx int, env c02env) {
@@ -292,7 +358,7 @@ func (x *c02pubs) loopContexts(c0 *ssa.Call) []*c02loopCtx {
 		if depth >= 3 {
 			return
 		}
-		for _, s := range gSites[cur.Parent()] {
+		for _, s := range c02sites(cur.Parent()) {
 			if _, isCall := s.(*ssa.Call); !isCall || s.Parent() == cur.Parent() {
 				continue
 			}
